@@ -457,6 +457,27 @@ def _shrink_amount(S, d, fn, call, argnode, linit, depth=0):
         return "unknown", "`%s` is not shown to be at most the size" % re.sub(r"\s+", " ", d.text(node))[:60]
     if k == "DeclRefExpr" and (node.get("referencedDecl") or {}).get("kind") == "ParmVarDecl":
         pname = (node.get("referencedDecl") or {}).get("name")
+        pid = (node.get("referencedDecl") or {}).get("id")
+        # a parameter that the body itself clamps (`count = std::min(count, size() - index);`) is what that assignment makes it
+        writes = []
+        for x in ir.walk_expr(ir.body(fn) or {}):
+            if x.get("kind") in ("BinaryOperator", "CompoundAssignOperator", "UnaryOperator") and ir.ekids(x):
+                op = x.get("opcode") or ""
+                if op in ("++", "--") or (op.endswith("=") and op not in ("==", "!=", "<=", ">=")):
+                    l_ = ir.strip(ir.ekids(x)[0])
+                    if l_.get("kind") == "DeclRefExpr" and (l_.get("referencedDecl") or {}).get("id") == pid:
+                        writes.append(x)
+        if writes:
+            if len(writes) == 1 and writes[0].get("opcode") == "=" and depth < 3:
+                rhs = ir.ekids(writes[0])[1]
+                # the right-hand side may mention the parameter's incoming value: only the capped forms are accepted, never the bare parameter again
+                r_ = rhs
+                while ir.strip(r_).get("kind") in ("ImplicitCastExpr", "CXXStaticCastExpr", "CXXFunctionalCastExpr") and ir.ekids(ir.strip(r_)):
+                    r_ = ir.ekids(ir.strip(r_))[-1]
+                if ir.strip(r_).get("kind") == "DeclRefExpr":
+                    return "unknown", "`%s` is reassigned from another variable" % pname
+                return _shrink_amount(S, d, fn, call, rhs, linit, depth + 1)
+            return "unknown", "the parameter `%s` is modified in the body" % pname
         access = fs.member_access(S.cls)
         if access.get(fn.get("id"), "public") == "public":
             return "bad", "takes `%s` characters off the length, a parameter that nothing caps by the current size: for a larger value the length wraps around to a huge one" % pname
